@@ -377,6 +377,7 @@ func (ex *Exec) bindResults(ct *Contract, sig *types.Signature, rets []Val, env 
 func (ex *Exec) applyContract(fr *Frame, name string, sig *types.Signature, ct *Contract, args []Val, st *State, pc *Term, pos token.Pos) (rv Val, npc *Term) {
 	ct.Used = true
 	ex.usedCts[ct.Key] = true
+	pcEntry := pc
 	if ct.Trusted {
 		ex.assumes["assumed contract: "+ct.Key] = true
 	}
@@ -530,6 +531,20 @@ func (ex *Exec) applyContract(fr *Frame, name string, sig *types.Signature, ct *
 	}
 	if ct.Callsback {
 		pc = ex.callbackEffects(fr, st, pc)
+	}
+	// vacuity: what the contract lets the caller assume must not contradict the caller's state
+	// (checked as a pair: reachable before the call => reachable after it)
+	if !ex.discover && !ex.initMode && ex.inCallback == 0 && pcEntry != nil {
+		site := ct.Key + "@" + ex.posOf(pos)
+		if !ex.callCovers[site] {
+			if ex.callCovers == nil {
+				ex.callCovers = map[string]bool{}
+			}
+			ex.callCovers[site] = true
+			before := &Obligation{Name: ex.root.String() + "/cover-before:" + shortName(name) + "@" + ex.posOf(pos), Kind: "cover", PC: pcEntry, Goal: False, Desc: "the call is reachable", Soft: true}
+			after := &Obligation{Name: ex.root.String() + "/cover-after:" + shortName(name) + "@" + ex.posOf(pos), Kind: "cover", PC: pc, Goal: False, Desc: "the state the contract of " + name + " describes after the call is reachable", Pair: before}
+			ex.covers = append(ex.covers, before, after)
+		}
 	}
 	switch rs.Len() {
 	case 0:
@@ -1010,7 +1025,7 @@ func (ex *Exec) copyElems(st *State, et types.Type, darr, doff *Term, src *Slice
 		}
 		oldA := Select(c, darr)
 		_, inner := arrParts(s)
-		if n.isLit() && n.val.Int64() <= 32 {
+		if n.isLit() && n.val.Int64() <= 64 {
 			na := oldA
 			for i := int64(0); i < n.val.Int64(); i++ {
 				k := BVu(uint64(i), 64)
@@ -1074,6 +1089,12 @@ func (ex *Exec) nativeModel(fr *Frame, fn *ssa.Function, args []Val, st *State, 
 	}
 	pkg := fn.Pkg.Pkg.Path()
 	name := fn.Name()
+	if pkg == "encoding/binary" {
+		if r := ex.binaryModel(fr, fn, args, st, pc, pos); r != nil {
+			return r
+		}
+		return nil
+	}
 	if pkg == "sync/atomic" && fn.Signature.Recv() == nil && len(args) > 0 {
 		p := args[0].(*Term)
 		et := fn.Signature.Params().At(0).Type().(*types.Pointer).Elem()
